@@ -300,7 +300,7 @@ def gen_client_valid(ctx, rng, n_streams, quick):
         cap = rng.choice([len(stream), len(stream), len(stream) + 1, len(stream) + 8192, 1 << 20, 16 << 20])
         blocks = []
         ops = []
-        for segs in segmentations(rng, stream, quick, 60 if quick else 400, interesting=(len(inter), len(inter) + hdr_len, end)):
+        for segs in segmentations(rng, stream, quick, 60 if quick else 160, interesting=(len(inter), len(inter) + hdr_len, end)):
             o = client_ops(method, cap, segs, True)
             # the generator knows what must come out of every op
             want = ["ok"]
@@ -362,7 +362,7 @@ def gen_client_invalid(ctx, rng, quick):
     for name, stream in invalid_length_responses(rng):
         cap = 16384
         blocks, ops = [], []
-        segsl = segmentations(rng, stream, quick, 24 if quick else 200)
+        segsl = segmentations(rng, stream, quick, 24 if quick else 120)
         for segs in segsl:
             o = client_ops(b"GET", cap, segs, True)
             blocks.append((len(ops), len(o), None))
@@ -423,7 +423,7 @@ def gen_client_mutated(ctx, rng, n, quick):
             stream = mutate(rng, stream, hot_offsets(stream))
         cap = rng.choice([len(stream) + 10, 200, 64, 1 << 20, max(1, len(stream) - 1), len(stream)])
         blocks, ops = [], []
-        for segs in segmentations(rng, stream, quick, 10 if quick else 80):
+        for segs in segmentations(rng, stream, quick, 10 if quick else 30):
             o = client_ops(method, cap, segs, True)
             blocks.append((len(ops), len(o), None))
             ops += o
@@ -535,7 +535,7 @@ def gen_server_valid(ctx, rng, n_streams, quick):
             partial = w2[:rng.range(0, len(w2) - 1)]                     # an incomplete request stays buffered
         stream += partial
         blocks, ops = [], []
-        for segs in segmentations(rng, stream, quick, 40 if quick else 300, interesting=ends):
+        for segs in segmentations(rng, stream, quick, 40 if quick else 120, interesting=ends):
             o = server_ops(segs)
             want = ["ok"]
             acc = 0
@@ -588,7 +588,7 @@ def gen_server_invalid(ctx, rng, quick):
     cases = []
     for name, stream in invalid_length_requests(rng):
         blocks, ops = [], []
-        for segs in segmentations(rng, stream, quick, 16 if quick else 150):
+        for segs in segmentations(rng, stream, quick, 16 if quick else 100):
             o = server_ops(segs)
             blocks.append((len(ops), len(o), None))
             ops += o
@@ -606,7 +606,7 @@ def gen_server_mutated(ctx, rng, n, quick):
         else:
             stream = mutate(rng, stream, hot_offsets(stream))
         blocks, ops = [], []
-        for segs in segmentations(rng, stream, quick, 8 if quick else 60):
+        for segs in segmentations(rng, stream, quick, 8 if quick else 24):
             o = server_ops(segs)
             blocks.append((len(ops), len(o), None))
             ops += o
@@ -793,6 +793,8 @@ OBLIGATIONS = [
      "statement": "server exactness (S1/S4/S5): a well-formed request (CL / body-less / chunked with extensions+trailers) is cut exactly at its end and handed over as header section + DECODED body"},
     {"id": "C15_S1p", "theorem": "Iora.C15.S1_pipeline_exact", "kind": "proved",
      "statement": "server: any segmentation of a pipeline of well-formed requests dispatches exactly those requests in order and leaves an empty buffer"},
+    {"id": "C15_S1r", "theorem": "Iora.C15.S1_request_exact", "kind": "proved",
+     "statement": "server: the extracted bytes parse (fromWireFormat) to exactly the method, target, header map (addOrCombineHeader fold) and decoded body of the encoded request"},
     {"id": "C15_S2a", "theorem": "Iora.C15.S2_extractor_stable", "kind": "proved",
      "statement": "server: the request extractor is extension-stable for ARBITRARY buffers (CL, body-less and chunked requests, and every close decision)"},
     {"id": "C15_S2", "theorem": "Iora.C15.S2_segmentation_independent", "kind": "proved",
@@ -839,7 +841,7 @@ def gen_all(ctx, quick, scale):
 
 def run(ctx: Ctx):
     quick = ctx.tier == "quick"
-    scale = 1 if quick else 15
+    scale = 1 if quick else 10
     rng = ctx.rng
     ctx.translate(["http"])
     ok_build = ctx.lake_build(MODULES + ["iora_model"])
@@ -856,7 +858,7 @@ def run(ctx: Ctx):
     if hb and have_model(ctx):
         cases = gen_all(ctx, quick, scale)
         ctx.log("generated %d cases, %d ops" % (len(cases), sum(len(c["ops"]) for c in cases)))
-        res = ctx.lockstep("http", hb, cases, timeout=1500)
+        res = ctx.lockstep("http", hb, cases, timeout=1500 if quick else 5400)
         n_mismatch = 0
         framing_calls = 0
         segs_compared = 0
@@ -890,8 +892,8 @@ def run(ctx: Ctx):
     ctx.extra["input_distribution"] = dist
     ctx.extra["repo_tree_sha"] = ctx.repo_tree_sha(ANCHOR_FILES)
     ctx.extra["not_proved"] = [
-        "server: HttpRequest::fromWireFormat maps the extracted bytes to (method, target, header map, body) exactly - the parser is modelled (Model/HttpServerFraming.lean) "
-        "and validated by lockstep + the S1 monitor against the generator's independent encoder, but has no Lean exactness theorem yet (S1 is proved up to the bytes handed to the parser)",
+        "server S1_request_exact / S1_extract_exact are stated for request lines without ':' (origin-form targets); absolute-form targets (http://host:port/...) are covered by lockstep and the S1 monitor only",
+        "server: error statuses of malformed requests (400/414/501/505) are modelled and lockstep-checked, not characterised by theorems (response formation is C16)",
         "client F2 is stated for streams that fit the cap (no prefix trips the cap check); with interim 1xx responses and a total above the cap the cap check is segmentation-dependent by design (erased interims no longer count)",
         "wall-clock bound per framing call is measured by the 2 s watchdog, termination itself is a theorem (total functions with strictly decreasing measures)"]
     ctx.assumptions += ["the receive loop of executeRequest is replicated in the harness (8 lines: append, cap check, frameResponse, PeerClosed arm); its shape is pinned by the translator",
